@@ -261,7 +261,7 @@ func (e *Exec) Assert(c *Term, label string) {
 	if e.Cfg.OneShotAsserts {
 		lits := append(append([]*Term{}, e.pcs...), e.ufFacts...)
 		lits = append(lits, neg)
-		r, _ = e.S.OneShot(lits, nil, e.S.TimeoutMs, nil)
+		r, _ = e.S.OneShot(lits, nil, e.S.LongMs, nil)
 		if r == Sat && len(e.ufOrder) > 0 {
 			r = e.check(neg) // refine table facts through the incremental path
 		}
@@ -275,6 +275,9 @@ func (e *Exec) Assert(c *Term, label string) {
 	case Unknown:
 		e.unknowns++
 		e.inconclusive = append(e.inconclusive, "assertion "+label+": solver returned unknown")
+		if e.Cfg.StopAfterUnknown {
+			panic(pathStop{})
+		}
 		return
 	}
 	e.recordViolation("assert", label, "", neg)
@@ -298,11 +301,29 @@ func (e *Exec) recordViolation(kind, label, detail string, extra *Term) {
 	}
 	var r Result
 	var vals []ModelValue
+	var lits []*Term
 	if extra != nil {
-		r, vals = e.checkVals(e.inputs, extra)
-	} else {
-		r, vals = e.checkVals(e.inputs)
+		lits = append(lits, extra)
 	}
+	if kind == "steps" || kind == "alloc" {
+		// a resource-budget violation: the solver's model tends to be the smallest input
+		// that crosses the symbolic accounting threshold, which the native accounting
+		// (allocator size classes, wall clock) may not cross. Push the witness away from
+		// the threshold: greedily maximise the input words the path condition leaves free
+		// (hostile length/count fields), most significant input first.
+		tried := 0
+		for _, in := range e.inputs {
+			if in.Sort.K != SBV || tried >= 48 || !e.relSeen[in.ID] {
+				continue
+			}
+			tried++
+			mx := e.B.Eq(in, e.B.BVConst(^uint64(0)>>(64-uint(in.Sort.W)), in.Sort.W))
+			if e.check(append(append([]*Term(nil), lits...), mx)...) == Sat {
+				lits = append(lits, mx)
+			}
+		}
+	}
+	r, vals = e.checkVals(e.inputs, lits...)
 	if r == Sat {
 		v.HasModel = true
 		for i, in := range e.inputs {
